@@ -15,6 +15,34 @@ CHECKS = {
         "coq/Gen from /repo; plus differential correspondence (Python vs model vs translation, E1 vm_compute).",
    technique="Coq proof (lia over Euclidean division) + py2coq translation bridge + vm_compute correspondence",
    note=COMMON_NOTE + "bytes([..]) range check modelled by py_bytes.", ref="8 (C07), 4, 5"),
+ 'C08': dict(
+   text="Coq theorems over ALL byte lists (Properties/C08.v: length, position-wise round trip in both compositions except 0x7E, "
+        "exact shape = reversed per-byte reflection, byte map ranges, 0x00/0xFF neither created nor destroyed), transported to the "
+        "translated source by Bridge/B_string.v (loop invariant over the in-place for loop); correspondence incl. the exhaustive "
+        "(byte value x position parity x length parity) table.",
+   technique="Coq proof (induction on lists, lia on nested ifs) + py2coq bridge + vm_compute correspondence",
+   note=COMMON_NOTE + "bytearray element stores assumed in range(256) (true for byte inputs; an out-of-range store would show as an exception in the correspondence).", ref="8 (C08)"),
+ 'C11': dict(
+   text="Coq theorems for ALL challenges (Properties/C11.v: hash = published formula with truncating remainder Z.rem on 0<=c<253^3; "
+        "0 <= hash < 253^4 up to 11,092,110 analytically + a 107-value forallb sweep; helper = Z.rem for b>0; the unrepaired helper is "
+        "refuted with witness 11092479), bridged to the translated source; differential check against an independent integer-only "
+        "transcription of the client arithmetic (exhaustive over all 16,194,277 challenges in the thorough tier and in the search).",
+   technique="Coq proof (Z.rem/Z.modulo lemmas, bounded products, finite sweep) + py2coq bridge + exhaustive differential oracle",
+   note=COMMON_NOTE + "The 'game client arithmetic' is the published formula with C remainder, as the property states; repaired defect F1 (fix: commit) is a regression seed.", ref="8 (C11), 11"),
+ 'C12': dict(
+   text="Coq theorems for EVERY outcome of the random source (Properties/C12.v: no generate() can request an empty range; every INIT/"
+        "PING/ACCOUNT outcome has value and wire components in range and is reconstructed exactly by the from-values constructor), "
+        "bridged to the translated source (random.randrange = scripted draw list); correspondence by substituting the random source "
+        "(edge draws for every start value in quick, the full 57,751+442,764+240 outcome space in thorough).",
+   technique="Coq proof (lia with truncating division) + py2coq bridge + enumeration of substituted random draws",
+   note=COMMON_NOTE + "random.randrange's contract is assumed (source substituted); int(x/7) modelled as Z.quot (exact for |x|<2^26).", ref="8 (C12)"),
+ 'C13': dict(
+   text="Coq theorems over ALL finite histories of {next_sequence, set_sequence_start v} and all start values (Properties/C13.v: "
+        "output stream = spec 'start in force + n mod 10', counter invariant, an update at any position keeps the position, shift "
+        "equivariance), by induction over histories; the translated class simulates the model step for step (Bridge/B_sequencer.v); "
+        "bounded-exhaustive + random histories on the implementation.",
+   technique="Coq proof (invariant by induction over operation lists) + py2coq class bridge (simulation) + bounded-exhaustive histories",
+   note=COMMON_NOTE + "A SequenceStart is abstracted to its .value.", ref="8 (C13)"),
 }
 NA_REASON = "check not built yet (build in progress; see DESIGN.md section 12)"
 
